@@ -26,9 +26,10 @@ REQUIRED_FEATURES = ["op:create-a", "op:create-w", "op:recreate-occupied", "op:c
                      "op:ln-hard", "op:ln-soft", "op:ln-external", "op:cp-onto-occupied", "op:cp-overwrite",
                      "via:cli", "via:api", "uri:no-leading-slash", "is_cooler:missing-group", "is_cooler:missing-file",
                      "is_cooler:non-hdf5", "is_cooler:dataset-path", "op:cp-to-root", "op:mv-onto-occupied",
-                     "op:ln-onto-occupied", "op:mv-spelling", "op:samefile-overwrite", "is_cooler:dangling-link"]
+                     "op:ln-onto-occupied", "op:mv-spelling", "op:samefile-overwrite", "is_cooler:dangling-link",
+                     "layout:second-file-behind-symlinked-directory"]
 
-PATHS = ["/a", "/b", "/g/x", "/g/y", "/h", "/k/deep/z"]
+PATHS = ["/a", "/b", "/g/x", "/g/y", "/h", "/k/deep/z", "/a_old", "/g/x2"]      # incl. names that extend another name
 
 
 def plan(tier, seed):
@@ -131,6 +132,12 @@ def one_history(ctx, cid, rng):
 
     d = ctx.newdir()
     files = [os.path.join(d, "A.cool"), os.path.join(d, "B.cool")]
+    symdir = bool(rng.random() < 0.3)
+    if symdir:
+        # the second file lives in a directory that is reached through a symbolic link at another depth of the tree
+        os.makedirs(os.path.join(d, "store", "deep", "er"))
+        os.symlink(os.path.join(d, "store", "deep", "er"), os.path.join(d, "out"))
+        files[1] = os.path.join(d, "out", "B.cool")
     M = Model(files)
     bt = gen.gen_bt(rng, None, max_chroms=2, max_bins=6)
     n = gen.bt_nbins(bt)
@@ -139,6 +146,8 @@ def one_history(ctx, cid, rng):
     nsteps = int(rng.integers(3, 11))
     with ctx.case(cid, {"history": hist}) as c:
         changed = False
+        if symdir:
+            c.feature("layout:second-file-behind-symlinked-directory")
         for step in range(nsteps + 2):
             op = ["create", "create", "cp", "mv", "ln", "lns", "ext", "recreate", "cp_occupied", "cp_overwrite", "create_w",
                   "cp_root", "mv_occupied", "ln_occupied", "mv_spelling", "samefile_overwrite"][int(rng.integers(16))] \
